@@ -222,7 +222,11 @@ def run_engine(ctx, front, configs, nlibs, lang_choices, asan=False, **libkw):
         libs = smallgen.sample(xlib.library(lang=lang, for_fortran=(front == "fortran"), **libkw), ctx.seed + len(jobs), nlibs)
         for lib in libs:
             for options in configs:
-                jobs.append((i, lib, front, options, asan))
+                lib2 = lib
+                if options and options.get("F_CFI"):
+                    lib2, nrem = xlib.without_vectors(lib)
+                    ctx.extra["excluded_vector_with_cfi"] = ctx.extra.get("excluded_vector_with_cfi", 0) + nrem
+                jobs.append((i, lib2, front, options, asan))
                 i += 1
     ncalls = 0
     for out in core.pool_map(_job, jobs):
